@@ -71,7 +71,12 @@ def c09(res, tier, seed, replay):
     # runs expected to hit the known crash are driven here so that the crash can be matched by signature
     normal = [r for r in runs if "expect_kf" not in r]
     risky = [r for r in runs if "expect_kf" in r]
-    results = drive_and_validate(res, normal)
+    pending = None
+    try:
+        results = drive_and_validate(res, normal)
+    except Inconclusive as e:
+        # (a free-running driver that hangs is no verdict by itself; the forced schedules below may show why)
+        pending, results = e, []
     for r in risky:
         name = r["name"]
         out = os.path.join(vlib.subdir("traces"), name + ".ndjson")
@@ -103,12 +108,16 @@ def c09(res, tier, seed, replay):
         # a shared object exists; the next batch fails while a reader stands between look-up and lock
         {"hist": [["WBegin", ""], ["WAttach", ""], ["WCommit", ""], ["WBegin", ""], ["WAttach", ""], ["RBegin", "r1"], ["WFail", ""],
                   ["RAttachCold", "r1"], ["REnd", "r1"], ["RBegin", "r2"], ["RAttachNew", "r2"], ["REnd", "r2"]]},
+        # a reader in the middle of its search on the shared object when the next write batch asks for the cache
+        # (the writer has to wait for it)
+        {"hist": [["WBegin", ""], ["WAttach", ""], ["WCommit", ""], ["RBegin", "r1"], ["RAttachShared", "r1"], ["RGetShared", "r1"],
+                  ["WBegin", ""], ["WAttach", ""], ["RGetShared", "r1"], ["RGetShared", "r1"], ["REnd", "r1"], ["WCommit", ""]]},
     ]
     nb = 240 if tier == "quick" else 3000
     behs = vlib.tlc_simulate("ShardCacheSim", "ShardCache.sim.cfg", nb, 200, seed, timeout=1200)
     # (the schedule of C09-a kills the process: it gets chunks of its own)
     chunk = 60
-    behs = [canon[1]] * chunk + ([canon[0], canon[2], canon[3], canon[3]] * 8 + behs)
+    behs = [canon[1]] * chunk + ([canon[0], canon[2], canon[3], canon[3]] * 8 + [canon[4]] * 3 + behs)
     res.coverage["forced_schedule_behaviours"] = len(behs)
     forced = 0
     fresults = []
@@ -160,6 +169,8 @@ def c09(res, tier, seed, replay):
             forced += sum(1 for line in f if '"forced":1' in line)
     res.coverage["searches_under_forced_schedules_judged_exactly"] = forced
     results += fresults
+    if pending is not None:
+        raise pending
     nsearch = 0
     overlapped = 0
     for r in results:
@@ -224,8 +235,8 @@ def c08(res, tier, seed, replay):
     # trained quantisers: warm / cold pair comparison (the model does not recompute quantised distances)
     for s in range(nseeds):
         runs.append({"name": f"cache-flat-pq-{s}", "timeout": 900,
-                     "args": ["-mode", "cache", "-insert-only", "-config", "flat-pq", "-maxbatch", 400, "-seed", seed * 100 + 80 + s, "-hist", 1,
-                              "-batches", 8, "-rank", 3, "-panel-every", 0]})
+                     "args": ["-mode", "cache", "-insert-only", "-config", "flat-pq", "-nids", 3000, "-maxbatch", 300, "-seed", seed * 100 + 80 + s, "-hist", 1,
+                              "-batches", 16, "-rank", 3, "-panel-every", 0]})
         for cfgname in ("flat-binlearn", "vamana-binlearn"):
             for cache, ctag in CACHES:
                 runs.append({"name": f"cache-{cfgname}-{ctag}-{s}",
